@@ -45,6 +45,7 @@ type Opts struct {
 	SubflowHeavy     bool     // many enter_flow actions (several per node, missing and wrong-type targets)
 	NoRandom         bool     // no random routers (outputs comparable across executions without a pinned random source)
 	NoGeneratedIDs   bool     // no templates that print engine-generated UUIDs (ticket UUIDs): for checks that cannot pin the UUID source
+	LocationHeavy    bool     // half of the router cases are location tests (shared location hierarchy)
 	TranslateMissing bool     // translations of quick_replies/attachments that the base language lacks, referencing globals/fields
 }
 
@@ -91,6 +92,8 @@ var FieldDefs = []M{
 	{"uuid": UUID("field", 5), "key": "gender", "name": "Gender", "type": "text"},
 	{"uuid": UUID("field", 6), "key": "nick", "name": "Nick", "type": "text"},
 	{"uuid": UUID("field", 7), "key": "state", "name": "State", "type": "state"},
+	{"uuid": UUID("field", 8), "key": "district", "name": "District", "type": "district"},
+	{"uuid": UUID("field", 9), "key": "ward", "name": "Ward", "type": "ward"},
 }
 
 var staticGroups = []M{
@@ -106,7 +109,7 @@ var DefaultGroupQueries = []string{
 	`twitter != ""`, `urn ~ "bob"`, `mailto = "bob@nyaruka.com"`, `last_seen_on != ""`, `last_seen_on = ""`, `last_seen_on > "2000-01-01"`,
 	`created_on > "2015-06-01"`, `created_on < "2015-06-01"`, `tickets > 0`, `tickets = 0`, `dob < "2000-01-01"`, `dob != ""`,
 	`joined = "2018-01-01"`, `nick = "bobby" OR gender = "female"`, `(age > 10 AND age < 20) OR name ~ "ann"`, `state = "Kigali City"`,
-	`nick != "x"`, `language != "eng"`,
+	`nick != "x"`, `language != "eng"`, `tel != "+250788123456"`, `tel = "+250788000111"`, `urn != "bob"`, `twitter = "bob"`,
 }
 
 var channels = []M{
@@ -123,7 +126,10 @@ var globals = []M{{"key": "org_name", "name": "Org Name", "value": "Nyaruka"}, {
 var optins = []M{{"uuid": UUID("optin", 1), "name": "Jokes"}}
 var classifiers = []M{{"uuid": UUID("classifier", 1), "name": "Booking", "type": "wit", "intents": []string{"book_flight", "book_hotel"}}}
 var resthooks = []M{{"slug": "new-registration", "subscribers": []string{"http://mock/?cmd=json", "http://mock/?cmd=gone"}}, {"slug": "empty-hook", "subscribers": []string{}}}
-var locations = []M{{"name": "Rwanda", "aliases": []string{"Ruanda"}, "children": []M{{"name": "Kigali City", "aliases": []string{"Kigali"}, "children": []M{{"name": "Gasabo", "children": []M{{"name": "Gisozi"}, {"name": "Ndera"}}}}}, {"name": "Eastern Province", "children": []M{}}}}}
+var locations = []M{{"name": "Rwanda", "aliases": []string{"Ruanda"}, "children": []M{
+	{"name": "Kigali City", "aliases": []string{"Kigali"}, "children": []M{{"name": "Gasabo", "children": []M{{"name": "Gisozi"}, {"name": "Ndera"}}}, {"name": "Centre", "children": []M{{"name": "Market"}}}}},
+	// the same district and ward names occur again under another parent
+	{"name": "Eastern Province", "aliases": []string{"East"}, "children": []M{{"name": "Centre", "children": []M{{"name": "Market"}, {"name": "Ndera"}}}, {"name": "Rwamagana", "children": []M{}}}}}}}
 var msgTemplates = []M{{
 	"uuid": UUID("template", 1), "name": "affirmation",
 	"translations": []M{
@@ -327,7 +333,11 @@ func (g *gen) action(flowType string, flowUUIDs []string, flowNames []string) M 
 		case "datetime":
 			a["value"] = rapid.SampledFrom([]string{"2020-01-01", "@(now())", "", "2000-01-01T00:00:00Z", "yesterday", "@input.text"}).Draw(g.t, "dateval")
 		case "state":
-			a["value"] = rapid.SampledFrom([]string{"Kigali", "Rwanda > Kigali City", "", "Nowhere", "@input.text"}).Draw(g.t, "stateval")
+			a["value"] = rapid.SampledFrom([]string{"Kigali", "Rwanda > Kigali City", "", "Nowhere", "@input.text", "East", "I moved from East to Kigali last year"}).Draw(g.t, "stateval")
+		case "district":
+			a["value"] = rapid.SampledFrom([]string{"Centre", "Gasabo", "", "Nowhere", "@input.text", "Rwamagana", "from Gasabo to Centre"}).Draw(g.t, "districtval")
+		case "ward":
+			a["value"] = rapid.SampledFrom([]string{"Market", "Ndera", "Gisozi", "", "@input.text"}).Draw(g.t, "wardval")
 		default:
 			a["value"] = g.template()
 		}
@@ -390,6 +400,10 @@ func (g *gen) action(flowType string, flowUUIDs []string, flowNames []string) M 
 		}
 		if rapid.Bool().Draw(g.t, "headers") {
 			a["headers"] = M{"Authorization": "Token @globals.org_name", "X-Name": "@contact.name", "Accept": "application/json"}
+			if rapid.IntRange(0, 2).Draw(g.t, "errheaders") == 0 {
+				// several header templates that log an error or a deprecation warning each
+				a["headers"] = M{"X-Div": "@(1 / 0)", "X-Missing": "@contact.fields.missing", "X-Name": "@contact.name", "X-Legacy": "@legacy_extra", "X-Unclosed": "@(foo"}
+			}
 		}
 		if rapid.IntRange(0, 3).Draw(g.t, "whresult") > 0 {
 			a["result_name"] = g.resultName()
@@ -490,7 +504,12 @@ var caseMenu = []caseSpec{
 	{"has_group", []string{UUID("group", 1), "Testers"}, ""}, {"has_category", []string{"Red", "Blue"}, ""}, {"has_intent", []string{"book_flight", "0.4"}, ""},
 	{"has_top_intent", []string{"book_hotel", "0.1"}, ""}, {"has_state", nil, "Kigali"}, {"has_district", []string{"Kigali"}, "Gasabo"}, {"has_value", nil, "x"},
 	{"has_any_word", []string{"@contact.name"}, "Bob"}, {"has_number_eq", []string{"abc"}, "5"}, {"has_any_word", []string{"@trigger.params.word"}, "magic"},
+	{"has_district", []string{"Eastern Province"}, "Centre"}, {"has_district", nil, "Centre"}, {"has_ward", []string{"Gasabo", "Kigali"}, "Gisozi"}, {"has_ward", []string{"Centre", "East"}, "Market"},
+	{"has_state", nil, "I moved from East to Kigali last year"}, {"has_district", []string{"Kigali"}, "Centre"}, {"has_number", nil, "1.234,5 francs"}, {"has_number_gt", []string{"1000"}, "1.234,5"},
 }
+
+// locationCases are the menu entries that consult the shared location hierarchy (for worlds biased towards it).
+var locationCases = []string{"has_state", "has_district", "has_ward"}
 
 func (g *gen) router(flowType string, nodeInfo *Node) (M, []M) {
 	exits := []M{}
@@ -520,6 +539,15 @@ func (g *gen) router(flowType string, nodeInfo *Node) (M, []M) {
 		cases := []M{}
 		for i := 0; i < ncases; i++ {
 			cs := rapid.SampledFrom(caseMenu).Draw(g.t, "case")
+			if g.o.LocationHeavy && rapid.Bool().Draw(g.t, "loccase") {
+				locs := []caseSpec{}
+				for _, m := range caseMenu {
+					if contains(locationCases, m.typ) {
+						locs = append(locs, m)
+					}
+				}
+				cs = rapid.SampledFrom(locs).Draw(g.t, "locationcase")
+			}
 			var cat M
 			if len(cats) > 0 && rapid.IntRange(0, 3).Draw(g.t, "sharecat") == 0 {
 				cat = cats[rapid.IntRange(0, len(cats)-1).Draw(g.t, "catidx")]
